@@ -3,6 +3,8 @@ import json, random, collections, os
 import vlib
 from vlib import Infra, log
 LEVEL = "model_checking"
+GROUPS = ["musignonce"]
+REPLAY_STATELESS = False
 MODULE = "C13_MuSigNonce.tla"
 TRACE = ("Trace_C13.tla", "C13_trace.cfg")
 REG = dict(category="model_checking",
